@@ -135,6 +135,10 @@ impl Ctx {
         let violations = self.violations.into_inner().unwrap();
         let observations = self.observations.into_inner().unwrap();
         let root = verif_root();
+        // replay artefacts belong to one run
+        if self.only_key.is_none() {
+            let _ = std::fs::remove_dir_all(format!("{}/replays/{}", root, self.prop));
+        }
         let mut new_violations = 0;
         let mut known_hits = vec![];
         let mut lines = vec![];
